@@ -344,7 +344,12 @@ pub fn seed_with_first_draw_zero(k: u64) -> u64 {
 /// The same inversion for any value of the 52 mantissa bits of the first draw: `low52 = 2^52 - 1` is
 /// the *largest* value `next_f64()` can take (1 - 2^-52), `2^51` is exactly 0.5.
 pub fn seed_with_first_draw(low52: u64, k: u64) -> u64 {
-    let out = ((k & 0xFFF) << 52) | (low52 & ((1 << 52) - 1));
+    seed_with_first_output(((k & 0xFFF) << 52) | (low52 & ((1 << 52) - 1)))
+}
+
+/// ... and for any value of the whole first 64-bit output word (`next()`): 0, 1, 2, u64::MAX, ... are the
+/// boundary values of everything that reduces a raw draw (`draw % u`, `draw & 1`, a multiply-shift).
+pub fn seed_with_first_output(out: u64) -> u64 {
     // xoshiro256**: out = rotl(s1 * 5, 7) * 9, s1 = second SplitMix64 output
     let s1 = out.wrapping_mul(inv_mul(9)).rotate_right(7).wrapping_mul(inv_mul(5));
     // SplitMix64 output function inverted
